@@ -18,9 +18,11 @@ NsFull == {0, 2, 3}
 NsTwo == {2, 3}
 NsOne == {2}
 A == <<"a">>
-B == <<"b", "c">>
-ShapesFull == {<<A>>, <<A, <<>>, B>>, <<<<>>, A>>, <<<<>>>>, <<B, B, A>>}
-ShapesFew == {<<A>>, <<A, <<>>, B>>}
+B == <<"b", "<CR>", "c">>                     \* a carriage return is not a line boundary
+C == <<"<VT>", "d", "<NEL>", "<LS>", "e", "<FF>", "<FS>", "<GS>", "<RS>", "<PS>">>
+E == <<>>
+ShapesFull == {<<A>>, <<A, E, B>>, <<E, A>>, <<E>>, <<B, C, A>>, <<A, E>>, <<C, E, E>>, <<E, E, E>>}
+ShapesFew == {<<A>>, <<A, E, B>>, <<C, E, E>>}
 ProbeShape == <<A, <<>>, B>>
 
 HInit == Init /\ hist = <<>>
